@@ -282,7 +282,11 @@ func (c *Cond) Signal() {
 	// sync.Cond promises "one goroutine", not which one
 	i := w.T.Choose(n)
 	t := c.waiters[i]
-	copy(c.waiters[i:], c.waiters[i+1:])
+	// (no copy(): runtime.slicecopy is race-instrumented even when called from a
+	// norace function, and this array is shared between tasks on purpose)
+	for j := i; j < n-1; j++ {
+		c.waiters[j] = c.waiters[j+1]
+	}
 	c.waiters[n-1] = nil
 	c.waiters = c.waiters[:n-1]
 	w.Wake(t)
@@ -395,7 +399,9 @@ func (p *Pool) Get() any {
 		return nil
 	}
 	b := p.free[idx]
-	copy(p.free[idx:], p.free[idx+1:])
+	for j := idx; j < len(p.free)-1; j++ {
+		p.free[j] = p.free[j+1]
+	}
 	p.free[len(p.free)-1] = nil
 	p.free = p.free[:len(p.free)-1]
 	pPoolReuse.Hit()
